@@ -20,6 +20,10 @@ theorem allWs_nl : AllWs ['\n'] := by decide
 def Brk (s : Str) : Prop := s = [] ∨ ∃ c r, s = c :: r ∧ isWs c = true
 
 theorem brk_nil : Brk [] := Or.inl rfl
+theorem brk_of_brkB {s : Str} (h : brkB s = true) : Brk s := by
+  cases s with
+  | nil => exact Or.inl rfl
+  | cons c r => exact Or.inr ⟨c, r, rfl, h⟩
 theorem brk_cons {c : Char} (r : Str) (h : isWs c = true) : Brk (c :: r) := Or.inr ⟨c, r, rfl, h⟩
 theorem brk_space (r : Str) : Brk (' ' :: r) := brk_cons r (by decide)
 theorem brk_nl (r : Str) : Brk ('\n' :: r) := brk_cons r (by decide)
